@@ -20,6 +20,9 @@ def rule_writer(ctx):
     protocol.writer_table(ctx, "O14.1", {"reset", "delimiter"}, "delimited")
     protocol.writer_table(ctx, "O14.1", {"reset", "delimiter"}, "fixed")
     protocol.fixed_writer_padding_table(ctx, "O14.5")
+    from .c03 import field_classes
+
+    protocol.fixed_writer_padding_side_table(ctx, "O14.7", [cls.qualname for cls in field_classes(ctx.model)])
 
 
 def rule_validation_is_the_readers(ctx):
